@@ -726,6 +726,12 @@ class Inliner:
                     st.body[0].value.value.id == st.target.id and \
                     not st.orelse:
                 call, mode = st.iter, 'gen'
+            elif isinstance(st, ast.For) and isinstance(st.iter, ast.Call) \
+                    and isinstance(st.target, ast.Name) and not st.orelse \
+                    and _consumable(st.body):
+                # for v in gen(..): BODY  ->  gen's body with every
+                # `yield X` replaced by `v = X; BODY`
+                call, mode = st.iter, 'consume'
             elif isinstance(st, ast.Assign) and \
                     isinstance(st.value, ast.Call):
                 call, mode = st.value, 'assign'
@@ -737,9 +743,13 @@ class Inliner:
             t = outer.resolve(f, call)
             if t is None:
                 return None
-            if mode != 'gen' and _expr_form(t) is not None:
+            if mode not in ('gen', 'consume') and _expr_form(t) is not None:
                 return None                 # the expression inliner's job
-            form = outer.splice_form(t, as_generator=(mode == 'gen'))
+            form = outer.splice_form(t, as_generator=(mode in ('gen',
+                                                               'consume')))
+            if mode == 'consume' and form is not None and not all(
+                    _yields_are_statements(b) for b in form[0]):
+                return None
             if form is None:
                 return None
             body, ret_e = form
@@ -789,6 +799,8 @@ class Inliner:
                         return ast.Name(id=rename[n.id], ctx=n.ctx)
                     return n
             new = [R().visit(clone(b)) for b in body]
+            if mode == 'consume':
+                new = _replace_yields(new, st.target.id, st.body)
             if ret_e is not None:
                 rv = R().visit(clone(ret_e))
                 if mode == 'assign':
@@ -825,6 +837,53 @@ class Inliner:
             return res
         f.node.body = do_list(f.node.body)
         return changed[0]
+
+
+def _consumable(body):
+    for b in body:
+        for x in ast.walk(b):
+            if isinstance(x, (ast.Break, ast.Continue, ast.Return, ast.Yield,
+                              ast.YieldFrom, ast.FunctionDef, ast.Lambda)):
+                return False
+    return True
+
+
+def _yields_are_statements(st):
+    """every yield of the helper is a plain `yield X` statement"""
+    for x in ast.walk(st):
+        if isinstance(x, ast.YieldFrom):
+            return False
+        if isinstance(x, ast.Yield):
+            par = getattr(x, '_parent', None)
+            if not (isinstance(par, ast.Expr) and par.value is x):
+                # clone()d trees have no _parent: accept when some Expr
+                # statement wraps exactly this yield
+                if not any(isinstance(e, ast.Expr) and e.value is x
+                           for e in ast.walk(st)):
+                    return False
+    return True
+
+
+def _replace_yields(stmts, var, body):
+    out = []
+    for st in stmts:
+        if isinstance(st, ast.Expr) and isinstance(st.value, ast.Yield):
+            val = st.value.value if st.value.value is not None \
+                else ast.Constant(value=None)
+            out.append(ast.Assign(targets=[ast.Name(id=var, ctx=ast.Store())],
+                                  value=val))
+            out.extend(clone(b) for b in body)
+            continue
+        for fld in ('body', 'orelse', 'finalbody'):
+            sub = getattr(st, fld, None)
+            if isinstance(sub, list) and not isinstance(
+                    st, (ast.FunctionDef, ast.AsyncFunctionDef,
+                         ast.ClassDef)):
+                setattr(st, fld, _replace_yields(sub, var, body))
+        for h in getattr(st, 'handlers', []) or []:
+            h.body = _replace_yields(h.body, var, body)
+        out.append(st)
+    return out
 
 
 # ------------------------------------------------------------------ N4 --------
@@ -921,6 +980,83 @@ class _N4(ast.NodeTransformer):
 
 
 # ------------------------------------------------------------------ N6 --------
+
+def n6b_adjacent_temps(fnode, keep=()):
+    """a NEW local that is bound several times, where EVERY read sits in the
+    statement right after one of its bindings (same block) and reads it
+    once: `t = E; use(t)` -> `use(E)` at each place.  This is what splicing a
+    helper at several call sites, or turning `yield X` into `v = X; body`,
+    leaves behind."""
+    params = {a.arg for a in fnode.args.args + fnode.args.kwonlyargs +
+              fnode.args.posonlyargs}
+    cand = {}
+    for n in _own_walk(fnode):
+        if isinstance(n, ast.Name) and n.id not in keep and \
+                n.id not in params:
+            cand.setdefault(n.id, [0, 0])[
+                0 if isinstance(n.ctx, (ast.Store, ast.Del)) else 1] += 1
+    cand = {k for k, (st, ld) in cand.items() if st >= 1 and ld >= 1}
+    if not cand:
+        return False
+    # verify every read, collect the rewrites
+    plan = {}        # id(block list) -> [(index of assign, name)]
+    reads_ok = {k: 0 for k in cand}
+    bad = set()
+
+    def scan(stmts):
+        for i, st in enumerate(stmts):
+            for fld in ('body', 'orelse', 'finalbody'):
+                sub = getattr(st, fld, None)
+                if isinstance(sub, list) and not isinstance(
+                        st, (ast.FunctionDef, ast.AsyncFunctionDef,
+                             ast.ClassDef)):
+                    scan(sub)
+            for h in getattr(st, 'handlers', []) or []:
+                scan(h.body)
+            if isinstance(st, ast.Assign) and len(st.targets) == 1 and \
+                    isinstance(st.targets[0], ast.Name) and \
+                    st.targets[0].id in cand and i + 1 < len(stmts):
+                v = st.targets[0].id
+                nxt = stmts[i + 1]
+                # reads of v in the header / own expressions of nxt only
+                if isinstance(nxt, (ast.For, ast.While, ast.If, ast.With,
+                                    ast.Try, ast.FunctionDef)):
+                    continue
+                uses = [x for x in ast.walk(nxt) if isinstance(x, ast.Name)
+                        and x.id == v and isinstance(x.ctx, ast.Load)]
+                if len(uses) == 1 and not any(
+                        isinstance(x, ast.Name) and x.id == v
+                        for x in ast.walk(st.value)):
+                    plan.setdefault(id(stmts), (stmts, []))[1].append((i, v))
+                    reads_ok[v] += 1
+    scan(fnode.body)
+    total = {}
+    for n in _own_walk(fnode):
+        if isinstance(n, ast.Name) and n.id in cand and \
+                isinstance(n.ctx, ast.Load):
+            total[n.id] = total.get(n.id, 0) + 1
+    good = {v for v in cand if total.get(v, 0) == reads_ok.get(v, 0) and
+            reads_ok.get(v, 0) > 0}
+    if not good:
+        return False
+    changed = False
+    for (stmts, items) in plan.values():
+        for (i, v) in sorted(items, reverse=True):
+            if v not in good:
+                continue
+            val = stmts[i].value
+            nxt = stmts[i + 1]
+
+            class Sub(ast.NodeTransformer):
+                def visit_Name(self, n):
+                    if n.id == v and isinstance(n.ctx, ast.Load):
+                        return clone(val)
+                    return n
+            stmts[i + 1] = ast.copy_location(Sub().visit(nxt), nxt)
+            del stmts[i]
+            changed = True
+    return changed
+
 
 def n6_single_use_temps(fnode, keep=()):
     """a NEW local assigned once from a pure expression and read exactly once,
@@ -1422,6 +1558,9 @@ def normalise(model, stats=None):
                 any_change = True
             if n6_single_use_temps(f.node, keep):
                 count['N6'] = count.get('N6', 0) + 1
+                any_change = True
+            while n6b_adjacent_temps(f.node, keep):
+                count['N6b'] = count.get('N6b', 0) + 1
                 any_change = True
             if n5_unroll_tables(f.node, keep):
                 count['N5'] = count.get('N5', 0) + 1
